@@ -322,10 +322,10 @@ type NSOptions struct {
 
 // NSExcludable: keys accepted in NSOptions.Exclude.
 var NSExcludable = map[string]string{
-	"kept":                 "no `kept` destination",
-	"negative_monetary":    "no monetary subtraction whose result is negative",
-	"dup_balance_account":  "at most one balance() variable per account",
-	"save":                 "no `save` statement",
+	"kept":                "no `kept` destination",
+	"negative_monetary":   "no monetary subtraction whose result is negative",
+	"dup_balance_account": "at most one balance() variable per account",
+	"save":                "no `save` statement",
 }
 
 // NSCommonSubset documents what CommonSubset removes.
@@ -351,7 +351,7 @@ type nsGen struct {
 	feat     map[string]bool
 	balVars  map[string]*NSVar // account -> balance() variable
 	srcUsed  map[string]bool   // accounts used as sources of the current send
-	asset    string // main asset of the program
+	asset    string            // main asset of the program
 }
 
 func (g *nsGen) p(pct int) bool { return g.rng.Intn(100) < pct }
@@ -401,8 +401,7 @@ func (g *nsGen) pickAccountName(allowWorld bool) string {
 	}
 }
 
-// accountNode: literal or (sometimes) an account variable. noOriginVar avoids
-// recursion when building origins.
+// accountNode: literal or (sometimes, unless plain) an account variable.
 func (g *nsGen) accountNode(name string, plain bool) *NSAccount {
 	n := &NSAccount{Name: name}
 	if plain || !g.p(14) {
@@ -633,9 +632,7 @@ func (g *nsGen) portions(k int) []*NSPortion {
 		out[i] = p
 	}
 	// `remaining` replaces one strictly positive portion
-	useRemaining := g.p(45)
-	hasVar := false
-	if useRemaining {
+	if g.p(45) {
 		var cands []int
 		for i := range w {
 			if w[i] > 0 {
@@ -650,12 +647,10 @@ func (g *nsGen) portions(k int) []*NSPortion {
 			for j := range out {
 				if j != i && g.p(20) {
 					out[j].Var = g.newVar("portion", out[j].Text)
-					hasVar = true
 				}
 			}
 		}
 	}
-	_ = hasVar
 	return out
 }
 
@@ -1159,8 +1154,6 @@ func (p *NSProgram) Finalize() {
 // shrinking support: every candidate is a structurally smaller program
 // (validity is decided by the caller running it).
 
-func cloneVarsMap() map[*NSVar]*NSVar { return map[*NSVar]*NSVar{} }
-
 type nsCloner struct{ vm map[*NSVar]*NSVar }
 
 func (c *nsCloner) v(v *NSVar) *NSVar {
@@ -1250,7 +1243,7 @@ func (c *nsCloner) dst(d *NSDest) *NSDest {
 
 // Clone deep-copies the program (AST, world).
 func (p *NSProgram) Clone() *NSProgram {
-	c := &nsCloner{vm: cloneVarsMap()}
+	c := &nsCloner{vm: map[*NSVar]*NSVar{}}
 	n := &NSProgram{World: p.World.Clone(), Features: p.Features, Note: p.Note, Common: p.Common}
 	for _, s := range p.Stmts {
 		n.Stmts = append(n.Stmts, &NSStatement{Kind: s.Kind, All: s.All, Mon: c.mon(s.Mon), AllAsset: c.ast(s.AllAsset),
